@@ -645,10 +645,9 @@ def compare_multiway(block_intersection, dataset_names, phases):
     multiway_results = {}  # (dataset_list0, dataset_list1) --> count
     for i, s in enumerate(bipartitions):
         count = histogram[s]
-        if i == 0:
-            assert {c for c in s} == set("0")
+        if set(s) == set("0"):
             print("ALL AGREE")
-        elif i == 1:
+        elif i == (1 if set(bipartitions[0]) == set("0") else 0):
             print("DISAGREEMENT")
         left, right = [], []
         for name, leftright in zip(dataset_names, s):
